@@ -6,13 +6,13 @@ for l in open('/verif/properties.jsonl'):
 claimed={
  'C02':("For every single-byte modification of the outer hello (all offsets, all masks) and 12 field substitutions/insertions of one honest tuple shape, the solver shows that no path reaches acceptance, and that the honest tuple is accepted; the ideal-HPKE model turns 'accepted' into 'the code passed byte-identical (key,suite,info,enc,seq,aad,payload)'.",'ideal HPKE model; structured hello shape; length-byte growth bound; ciphertext-derived-length cut (counted)'),
  'C03':("All layouts within the bound (extension positions, marker position, referenced subsequence, padding, session id) are explored symbolically; the delivered record is compared byte for byte with a reference reconstruction; contents are symbolic.","ideal HPKE model; bounds on extension counts and lengths"),
- 'C04':("Each rule violation of the statement (R1..R10, several shapes each, incl. keyless servers and retry-hello rules in 18 variants) is applied with symbolic contents to a valid hello; error class, alert bytes and version, Close and no forwarding are asserted on every path.",'ideal HPKE model; single faults; one hello shape per rule'),
+ 'C04':("Each rule violation of the statement (R1..R10, several shapes each, incl. keyless servers and retry-hello rules in 18 variants) is applied with symbolic contents to a valid hello; error class, alert bytes and version, Close and no forwarding are asserted on every path.",'ideal HPKE model; single faults; one hello shape per rule (reference-list rules: two positions of the ECH extension)'),
  'C05':("Raw and structured ClientHellos within the byte bounds: forwarded bytes equal the client's bytes, valid hellos are not refused, ServerName/ALPN equal a reference extraction and what crypto/tls's own server extracts from the forwarded bytes; later records after a non-accepted ECH pass untouched.","reference recogniser in the harness and crypto/tls's server (interpreted from SSA, real natively) are the oracles; raw bounds are small (x13 paths per 4 free bytes)"),
  'C06':("All histories of 3 records over 10 event kinds, record types 20/21/23/24 and 6 (quick) / 13 (thorough) second-hello variants incl. a third hello are explored and compared step by step with a reference monitor of the statement; two connections sharing keys are explored for non-interference.",'ideal HPKE model; history length bound; one record per call'),
  'C07':("Read/Write pipes explored over symbolic record streams, cuts, chunkings and buffer sizes from stated sets, plus a one-step inductive Write harness over arbitrary invariant-satisfying states.","direct construction of the post-acceptance state; chunk sizes fixed per run"),
  'C08':("Implicit Go assertions (bounds, nil, type assertion, unrecovered panic, loop unwinding) are checked by the engine on every path of raw and structured inputs to NewConn/Read/Write; record lengths around the accepted maximum; refusal paths.",'byte bounds; allocation measured only where vAllocated is asserted'),
  'C09':("Key lists with solver-chosen id collisions, target at every position or absent: verdict and reconstructed hello compared with the single-key expectation.","ideal HPKE model; first hellos only"),
- 'C10':("All scheduling-point interleavings of {hello available, NewConn returns, cancel, deadline expiry, watcher runs} incl. both select outcomes are explored in virtual time; SetDeadline after return, later I/O and the return time are asserted.",'cooperative-scheduling model: no pre-emption between ordinary instructions'),
+ 'C10':("All scheduling-point interleavings of {hello available, NewConn returns, cancel, deadline expiry, watcher runs} incl. both select outcomes are explored in virtual time; deadline calls (SetDeadline, SetReadDeadline, SetWriteDeadline) on the transport, later I/O and the return time are asserted.",'cooperative-scheduling model: no pre-emption between ordinary instructions'),
  'C11':("Encoder vs hand-written section-4 layout, Spec/ParseConfigList round trips, refusal of 0/256-byte names, empty keys and empty suite lists, raw parser robustness and framing (extensions vector, list tiling, version), truncation and non-interference, for symbolic ids/KEMs/suites/keys/names within the bounds; crypto/tls's client parses the lists and picks the config, crypto/tls's server accepts the keys (both up to their HPKE set-up).",'real handshakes are not checked (C01); GenerateKey stubbed'),
  'C12':("Every decoder path over bounded symbolic messages: no panic, loop-unwinding limit as termination assertion, RR data type matches RR type, name/hint/list bounds, allocation bounded linearly in the message length, far and looping compression pointers.",'small byte bounds; floats opaque'),
  'C13':("Encode/decode round trip for symbolic messages of the supported record types, byte-exact comparison with a reference encoder, decoding of reference-compressed responses, padding for all name lengths 0..130 (5 shapes, option survival, idempotence), ResponseCode as a bit-vector identity.",'reference encoder in the harness; no second full codec'),
